@@ -3,11 +3,11 @@
 // bytecode VM and, when the Go backend accepts it, translated by checker.CheckSourceNative, compiled and executed.
 // Oracle: the generated Go compiles; stdout, success/failure status and the uncaught-error report are equal.
 //
-// Cost model: linking the elk runtime dominates a native build (seconds), so a worker translates all programs of
-// its share first and compiles them into ONE binary: program k becomes package pk of a scratch module (the
-// generated file verbatim except `package main` → `package pk` and `func main()` → `func Main()`), and a generated
-// dispatcher runs exactly one of them per process (`prog k`). The scratch module has the layout of
-// elk.compileResult (module main, -tags native, elk replaced by /repo).
+// Cost model: loading and linking the elk runtime dominates a native build (seconds), so a worker translates all
+// programs of its share first and compiles them into ONE binary: program k becomes file pk.go of package main of a
+// scratch module (the generated file with its package-level identifiers consistently suffixed _pk, nothing else
+// changed), and a generated dispatcher runs exactly one of them per process (`prog k` calls main_pk()). The scratch
+// module has the layout of elk.compileResult (module main, -tags native, elk replaced by /repo).
 package main
 
 import (
@@ -16,7 +16,10 @@ import (
 	"context"
 	"encoding/json"
 	"fmt"
+	"go/ast"
 	"go/format"
+	"go/parser"
+	"go/token"
 	"io"
 	"os"
 	"os/exec"
@@ -291,12 +294,41 @@ func goEnv() []string {
 	return append(env, "GOFLAGS=-mod=mod", "GOPROXY=off", "GOTOOLCHAIN=auto", "CGO_ENABLED=0", "ELKPATH=/repo", "GOWORK=off", "NO_COLOR=1")
 }
 
-var pkgLineRe = regexp.MustCompile(`(?m)^package main\b`)
-var mainFuncRe = regexp.MustCompile(`(?m)^func main\(\) \{`)
-var buildErrLineRe = regexp.MustCompile(`^(?:\./)?p(\d+)/prog\.go:\d+:\d+: (.*)$`)
+var buildErrLineRe = regexp.MustCompile(`^(?:\./)?p(\d+)\.go:\d+:\d+: (.*)$`)
 
-// buildCombined writes package pK for every source in goSrcs (key K) into dir and builds one binary. Packages
-// whose compilation fails are returned in errs (first lines of the compiler output) and left out of the binary.
+// renameTopLevel gives every package-level identifier declared in a generated file the suffix _p<k> (consistently at
+// all its uses), so that the generated files of many programs can live in one Go package. Nothing else changes.
+func renameTopLevel(src []byte, k int) ([]byte, error) {
+	fset := token.NewFileSet()
+	f, err := parser.ParseFile(fset, "prog.go", src, parser.ParseComments)
+	if err != nil {
+		return nil, err
+	}
+	if f.Name.Name != "main" || f.Scope.Lookup("main") == nil {
+		return nil, fmt.Errorf("generated file has no `package main` / `func main()`")
+	}
+	top := map[*ast.Object]bool{}
+	for _, obj := range f.Scope.Objects {
+		top[obj] = true
+	}
+	sfx := fmt.Sprintf("_p%d", k)
+	seen := map[*ast.Ident]bool{}
+	ast.Inspect(f, func(n ast.Node) bool {
+		if id, ok := n.(*ast.Ident); ok && id.Obj != nil && top[id.Obj] && id.Name != "_" && !seen[id] {
+			seen[id] = true
+			id.Name += sfx
+		}
+		return true
+	})
+	var out bytes.Buffer
+	if err := format.Node(&out, fset, f); err != nil {
+		return nil, err
+	}
+	return out.Bytes(), nil
+}
+
+// buildCombined writes file p<K>.go for every source in goSrcs (key K) into dir and builds one binary. Programs
+// whose file does not compile are returned in errs (the compiler's messages) and left out of the binary.
 func buildCombined(dir string, goSrcs map[int][]byte) (bin string, errs map[int]string) {
 	errs = map[int]string{}
 	if err := os.MkdirAll(dir, 0o755); err != nil {
@@ -307,34 +339,28 @@ func buildCombined(dir string, goSrcs map[int][]byte) (bin string, errs map[int]
 	os.WriteFile(filepath.Join(dir, "go.sum"), sum, 0o644)
 	live := map[int]bool{}
 	for k, src := range goSrcs {
-		if !pkgLineRe.Match(src) || !mainFuncRe.Match(src) {
-			errs[k] = "prog.go:1:1: generated file has no `package main` / `func main()`"
+		ren, err := renameTopLevel(src, k)
+		if err != nil {
+			errs[k] = fmt.Sprintf("p%d.go:1:1: %v\n", k, err)
 			continue
 		}
-		src = pkgLineRe.ReplaceAll(src, []byte(fmt.Sprintf("package p%d", k)))
-		src = mainFuncRe.ReplaceAll(src, []byte("func Main() {"))
-		os.MkdirAll(filepath.Join(dir, fmt.Sprintf("p%d", k)), 0o755)
-		os.WriteFile(filepath.Join(dir, fmt.Sprintf("p%d", k), "prog.go"), src, 0o644)
+		os.WriteFile(filepath.Join(dir, fmt.Sprintf("p%d.go", k)), ren, 0o644)
 		live[k] = true
 	}
-	for round := 0; round < 40; round++ {
+	for round := 0; round < 60; round++ {
 		var keys []int
 		for k := range live {
 			keys = append(keys, k)
 		}
 		sort.Ints(keys)
 		var d strings.Builder
-		d.WriteString("package main\n\nimport (\n\t\"os\"\n")
+		d.WriteString("package main\n\nimport \"os\"\n\nfunc main() {\n\tswitch os.Args[1] {\n")
 		for _, k := range keys {
-			fmt.Fprintf(&d, "\tp%d \"main/p%d\"\n", k, k)
-		}
-		d.WriteString(")\n\nfunc main() {\n\tswitch os.Args[1] {\n")
-		for _, k := range keys {
-			fmt.Fprintf(&d, "\tcase \"%d\":\n\t\tp%d.Main()\n", k, k)
+			fmt.Fprintf(&d, "\tcase \"%d\":\n\t\tmain_p%d()\n", k, k)
 		}
 		d.WriteString("\tdefault:\n\t\tos.Exit(97)\n\t}\n}\n")
 		os.WriteFile(filepath.Join(dir, "main.go"), []byte(d.String()), 0o644)
-		args := []string{"build", "-tags", "native"}
+		args := []string{"build", "-tags", "native", "-gcflags=main=-e"}
 		if ov := os.Getenv("VERIF_OVERLAY"); ov != "" {
 			args = append(args, "-overlay", ov) // mutation demonstrations must reach the runtime linked into the binary
 		}
@@ -350,7 +376,7 @@ func buildCombined(dir string, goSrcs map[int][]byte) (bin string, errs map[int]
 		if err == nil {
 			return filepath.Join(dir, "prog"), errs
 		}
-		// attribute compiler errors to packages
+		// attribute compiler errors to programs
 		found := false
 		for _, line := range strings.Split(out.String(), "\n") {
 			if m := buildErrLineRe.FindStringSubmatch(strings.TrimSpace(line)); m != nil {
@@ -367,7 +393,10 @@ func buildCombined(dir string, goSrcs map[int][]byte) (bin string, errs map[int]
 			panic("infrastructure: go build failed for reasons unrelated to the generated sources:\n" + err.Error() + "\n" + firstLines(out.String(), 40))
 		}
 		for k := range errs {
-			delete(live, k)
+			if live[k] {
+				delete(live, k)
+				os.Remove(filepath.Join(dir, fmt.Sprintf("p%d.go", k)))
+			}
 		}
 	}
 	panic("infrastructure: combined build did not converge")
@@ -485,8 +514,8 @@ func workDir() string {
 	return filepath.Join(engine.Root, ".work", "c09", fmt.Sprintf("run-%d", os.Getppid()), fmt.Sprintf("w%d", os.Getpid()))
 }
 
-// prepare translates every program of this worker's share and builds the combined binary (once per process, inside
-// the first case that needs it).
+// prepare translates every program of this worker's share and builds the combined binary (once per worker process,
+// in Spec.Setup).
 func prepare(thorough bool) {
 	if prepared != nil {
 		return
@@ -679,8 +708,8 @@ func checkItem(r *engine.R, rc *rec) {
 	}
 }
 
-var buildErrRe = regexp.MustCompile(`prog\.go:\d+:\d+: (.*)`)
-var identRe = regexp.MustCompile(`\b(t|l|sym|fn_method|fn_cl|lbl|bi|bf|p|cc_\w+?_)\d+\b`)
+var buildErrRe = regexp.MustCompile(`p\d+\.go:\d+:\d+: (.*)`)
+var identRe = regexp.MustCompile(`\b(t|l|sym|fn_method|fn_cl|lbl|bi|bf|cc_\w+?_)\d+(_p\d+)?\b`)
 var digitsRe = regexp.MustCompile(`\d+`)
 
 func buildErrSig(out string) string {
@@ -795,11 +824,14 @@ func main() {
 		Rule:  rule,
 		Assume: []string{
 			"the bytecode VM run in-process (vm.New + InterpretTopLevel + vm.PrintError) is what `elk run` does",
-			"compiling the generated file as package pK of a scratch module (module main, -tags native, replace elk => /repo; `package main`→`package pK`, `func main`→`func Main`, one process per program run through a dispatcher) is equivalent to elk.compileResult's one-binary-per-program build; the package-level initialisers (symbol interning, empty call caches) of the other programs of the same binary run too",
+			"compiling the generated file as file pK.go of one scratch module (module main, -tags native, replace elk => /repo; its package-level identifiers consistently renamed with the suffix _pK, one process per program run through a dispatcher) is equivalent to elk.compileResult's one-binary-per-program build; the package-level initialisers (symbol interning, empty call caches) of the other programs of the same binary run too",
 			"method bodies compiled one at a time (MethodCheckConcurrencyLimit=1)",
 		},
+		// translation and build of the worker's whole share happen before the first case: a failure there is an
+		// infrastructure error (exit 2), not a verdict
+		Setup:            func(c *engine.Ctx) { prepare(c.Thorough) },
 		Run:              func(c *engine.Ctx) { run(c) },
-		CaseTimeout:      45 * time.Minute, // the first case of a worker includes the translation and the build of its whole share
+		CaseTimeout:      10 * time.Minute,
 		QuickDeadline:    30 * time.Minute,
 		ThoroughDeadline: 55 * time.Minute,
 		Finish: func(a *engine.Agg) {
